@@ -78,7 +78,10 @@ THSplit ==
                     IN /\ cur' = IF okc THEN [cur EXCEPT !.bnd = Put(Put(@, ch[1], <<cur.bnd[r][1], LeftB0(Ev.tr)>>), ch[2], <<RightF0(Ev.tr), cur.bnd[r][2]>>),
                                                          !.cells = @ \cup Cells(r, Ev.meet, Ev.tr), !.nsplit = @ + 1]
                                  ELSE cur
-                       /\ IF same THEN viol' = {}
+                       /\ IF same
+                          THEN IF "sc" \in DOMAIN Ev /\ exact /\ Ev.sc # mt.max
+                               THEN PrintT(<<"KVINFO", l, cur.cx.kind, r, "score code", Ev.sc, "model", mt.max>>) /\ Report({"Progressive.score-of-the-split-differs-from-the-model"})
+                               ELSE viol' = {}
                           ELSE IF close THEN PrintT(<<"KVNOTE", l, "progressive", "too-close-to-call-in-float">>) /\ viol' = {}
                           ELSE /\ PrintT(<<"KVINFO", l, cur.cx.kind, r, "code", Ev.meet, Ev.tr, "model", mt.c, mt.tr, "margin", mt.max - mt.second>>)
                                /\ Report({"Progressive.meet-or-transition-differs-from-the-model"})
